@@ -23,6 +23,7 @@ asm(".weak _ZNK2mp12NameProvider11number_readEv");
 
 #include <cxxabi.h>
 #include <fcntl.h>
+#include <sys/mman.h>
 #include <sys/stat.h>
 #include <sys/syscall.h>
 #include <unistd.h>
@@ -33,6 +34,8 @@ asm(".weak _ZNK2mp12NameProvider11number_readEv");
 #include "mp/problem.h"
 
 #include "nlread.h"
+#include <sys/mman.h>
+#include <unistd.h>
 #include "nlrec.h"
 
 namespace iosim {
@@ -125,6 +128,8 @@ void guarded(ReadOutcome& out, F f) {
     out.status = "bad_alloc";
   } catch (const SimSpin&) {
     out.status = "spin";
+  } catch (const RecHandler::Runaway&) {
+    out.status = "runaway";
   } catch (const std::exception& e) {
     out.status = "std:" + demangled(typeid(e)); out.msg = e.what();
   } catch (...) {
@@ -156,7 +161,7 @@ ReadOutcome with_handler(const ReadOpts& o, R reader) {
   switch (o.handler) {
     case H_CHECK: {
       RecHandler h;
-      h.want_items = o.want_items; h.norm_zero = o.norm_zero;
+      h.want_items = o.want_items; h.norm_zero = o.norm_zero; h.max_notifications = o.max_notifications;
       guarded(out, [&] { reader(h); });
       take(out, h);
       break;
@@ -195,13 +200,22 @@ struct FileReader {
 }  // namespace
 
 ReadOutcome read_nl_string(const std::string& bytes, const std::string& name, const ReadOpts& o) {
-  // exact-size heap copy: any read past the terminating NUL is a sanitizer report
-  char* buf = (char*)malloc(bytes.size() + 1);
+  // The bytes and their terminating NUL are placed so that the NUL is the last byte before an inaccessible
+  // page: any read past it faults at once and in every process alike.  (An exact-size malloc block relies on
+  // ASan's redzone check, which GCC elides for some loads, and what lies behind the block then depends on the
+  // history of the heap: such runs did not replay.)
+  const size_t page = (size_t)sysconf(_SC_PAGESIZE);
+  const size_t need = bytes.size() + 1;
+  const size_t span = (need + page - 1) / page * page;
+  char* base = (char*)mmap(nullptr, span + page, PROT_READ | PROT_WRITE, MAP_PRIVATE | MAP_ANONYMOUS, -1, 0);
+  if (base == MAP_FAILED) throw std::bad_alloc();
+  mprotect(base + span, page, PROT_NONE);
+  char* buf = base + span - need;
   memcpy(buf, bytes.data(), bytes.size());
   buf[bytes.size()] = 0;
   StringReader r{buf, bytes.size(), name, o.flags};
   ReadOutcome out = with_handler(o, r);
-  free(buf);
+  munmap(base, span + page);
   return out;
 }
 
